@@ -1,6 +1,7 @@
 package main
 
 import (
+	"go/token"
 	"sync"
 
 	"golang.org/x/tools/go/ssa"
@@ -188,6 +189,190 @@ func enclosingChain(b *ssa.BasicBlock, top *ssa.Function) []*ssa.Function {
 	if len(out) == 0 || out[len(out)-1] != top {
 		// target is not nested in top through IIFEs
 		return []*ssa.Function{b.Parent()}
+	}
+	return out
+}
+
+// ---------------------------------------------------------------------------
+// facts established by branch edges, including edges of `if <IIFE>() {`
+
+type fact struct {
+	isV  func(ssa.Value) bool
+	kind string // "bool" or "nil"
+	want bool   // bool: the value; nil: true = value is nil
+}
+
+func factBool(isV func(ssa.Value) bool, want bool) fact { return fact{isV, "bool", want} }
+func factNil(isV func(ssa.Value) bool, wantNil bool) fact { return fact{isV, "nil", wantNil} }
+
+// directEdge: the successor of ifi on which the fact holds by ifi's own condition.
+func directEdge(ifi *ssa.If, f fact) (int, bool) {
+	switch f.kind {
+	case "bool":
+		if s, ok := boolEdge(ifi, f.isV); ok {
+			if f.want {
+				return s, true
+			}
+			return 1 - s, true
+		}
+	case "nil":
+		if s, ok := nilEdge(ifi, f.isV); ok {
+			if f.want {
+				return s, true
+			}
+			return 1 - s, true
+		}
+	}
+	return 0, false
+}
+
+// boolIIFE: ifi branches on the result of an immediately-invoked bool literal.
+func boolIIFE(ifi *ssa.If) (g *ssa.Function, succWhenTrue int, ok bool) {
+	v := ifi.Cond
+	neg := false
+	for {
+		if u, isU := v.(*ssa.UnOp); isU && u.Op == token.NOT {
+			neg = !neg
+			v = u.X
+			continue
+		}
+		break
+	}
+	call, isCall := v.(*ssa.Call)
+	if !isCall {
+		return nil, 0, false
+	}
+	g = iifeCallee(call)
+	if g == nil || g.Signature.Results().Len() != 1 || g.Signature.Results().At(0).Type().String() != "bool" || len(loopsOf(g)) > 0 {
+		return nil, 0, false
+	}
+	if neg {
+		return g, 1, true
+	}
+	return g, 0, true
+}
+
+// iifeImplies: whenever the bool literal g returns `result`, the fact holds.
+func iifeImplies(g *ssa.Function, result bool, f fact) bool {
+	paths, ok := abstractPaths(g, 512, func(ssa.Value) (bool, bool) { return false, false })
+	if !ok || len(paths) == 0 {
+		return false
+	}
+	for _, p := range paths {
+		r := p.St.resolve(p.Ret.Results[0])
+		// can this path produce `result`?
+		neg := false
+		for {
+			if u, isU := r.(*ssa.UnOp); isU && u.Op == token.NOT {
+				neg = !neg
+				r = p.St.resolve(u.X)
+				continue
+			}
+			break
+		}
+		established := false
+		if b, isC := constBool(r); isC {
+			if neg {
+				b = !b
+			}
+			if b != result {
+				continue // this path never yields `result`
+			}
+		} else if f.kind == "bool" && f.isV(r) {
+			// returned value is (the negation of) the fact's variable
+			val := result
+			if neg {
+				val = !val
+			}
+			if val == f.want {
+				established = true
+			} else {
+				return false
+			}
+		} else if f.kind == "nil" {
+			// `return err != nil` style
+			if b, isB := r.(*ssa.BinOp); isB && (b.Op == token.EQL || b.Op == token.NEQ) {
+				var other ssa.Value
+				if isNilConst(b.Y) {
+					other = b.X
+				} else if isNilConst(b.X) {
+					other = b.Y
+				}
+				if other != nil && f.isV(other) {
+					isNil := (b.Op == token.EQL) == (result != neg)
+					if isNil == f.want {
+						established = true
+					} else {
+						return false
+					}
+				}
+			}
+		}
+		if !established {
+			// look for a branch on the path that establishes it
+			for e := range p.St.Edges {
+				ifi, isIf := e.From.Instrs[len(e.From.Instrs)-1].(*ssa.If)
+				if !isIf {
+					continue
+				}
+				if s, ok := directEdge(ifi, f); ok && s == e.Idx {
+					established = true
+				}
+			}
+		}
+		if !established {
+			return false
+		}
+	}
+	return true
+}
+
+// edgeEstablishes: on successor e of ifi the fact holds, by ifi's own condition or because ifi
+// branches on a bool IIFE that implies it.
+func edgeEstablishes(ifi *ssa.If, e int, f fact) bool {
+	if s, ok := directEdge(ifi, f); ok && s == e {
+		return true
+	}
+	if g, succTrue, ok := boolIIFE(ifi); ok {
+		return iifeImplies(g, e == succTrue, f)
+	}
+	return false
+}
+
+// factGuards: target is dominated by an edge establishing the fact.
+func factGuards(fn *ssa.Function, target *ssa.BasicBlock, f fact) bool {
+	for _, fnc := range enclosingChain(target, fn) {
+		for _, ifi := range ifsIn(fnc) {
+			for e := 0; e < 2; e++ {
+				if edgeEstablishes(ifi, e, f) && edgeDominates(ifi.Block(), e, target) {
+					return true
+				}
+			}
+		}
+	}
+	return false
+}
+
+// edgesWhereAll: the If edges of fn on which all facts hold (each either established by the
+// edge itself or already guaranteed at the If's block).
+func edgesWhereAll(fn *ssa.Function, facts ...fact) []cfgEdge {
+	var out []cfgEdge
+	for _, ifi := range ifsIn(fn) {
+		for e := 0; e < 2; e++ {
+			all, any := true, false
+			for _, f := range facts {
+				if edgeEstablishes(ifi, e, f) {
+					any = true
+					continue
+				}
+				if !factGuards(fn, ifi.Block(), f) {
+					all = false
+				}
+			}
+			if all && any {
+				out = append(out, cfgEdge{ifi.Block(), e})
+			}
+		}
 	}
 	return out
 }
